@@ -337,17 +337,163 @@ func c20(repo string, out *fg.Out) error {
 		return fmt.Errorf("unmodelled mutating methods: %s (extend the C20 model + op list)", strings.Join(unknown, ", "))
 	}
 
-	// the two invalidators must clear BOTH caches (token cache + permission cache)
-	for _, nm := range []string{"InvalidateAllCache", "InvalidateTokenCache"} {
+	// ---- structure of the two invalidators, per cache (the two caches are evicted independently, so
+	// "the token has no loaded data" says nothing about its cached decisions)
+	directCall := func(st ast.Stmt, name string) *ast.CallExpr {
+		es, ok := st.(*ast.ExprStmt)
+		if !ok {
+			return nil
+		}
+		c, ok := es.X.(*ast.CallExpr)
+		if !ok || fg.CalleeName(c) != name {
+			return nil
+		}
+		return c
+	}
+	tokDrops, permScan := false, "never"
+	{
+		k := mkey{"RBACManager", "InvalidateTokenCache"}
+		fd, f := methods[k], mfile[k]
+		guardVar := "" // set when an `if !X { return }` precedes the scan
+		for _, st := range fd.Body.List {
+			if c := directCall(st, "delete"); c != nil && len(c.Args) == 2 && f.Text(c.Args[0]) == "rm.tokenCache" && f.Text(c.Args[1]) == "tokenID" {
+				tokDrops = true
+				continue
+			}
+			switch x := st.(type) {
+			case *ast.RangeStmt:
+				if f.Text(x.X) != "rm.permCache" {
+					return fmt.Errorf("InvalidateTokenCache: unexpected range over %s", f.Text(x.X))
+				}
+				txt := f.Text(x.Body)
+				if !strings.Contains(txt, "tokenID == tokenID") || !strings.Contains(txt, "delete(rm.permCache") {
+					return fmt.Errorf("InvalidateTokenCache: permission-cache scan no longer deletes exactly the entries of tokenID")
+				}
+				if guardVar != "" {
+					permScan = "if-data-cached"
+				} else {
+					permScan = "always"
+				}
+			case *ast.IfStmt:
+				cond := f.Text(x.Cond)
+				hasRet := false
+				ast.Inspect(x.Body, func(n ast.Node) bool {
+					if _, ok := n.(*ast.ReturnStmt); ok {
+						hasRet = true
+					}
+					return true
+				})
+				// `_, loaded := rm.tokenCache[tokenID]` … `if !loaded { return }`
+				v := strings.TrimPrefix(cond, "!")
+				declared := strings.Contains(f.Text(fd.Body), ", "+v+" := rm.tokenCache[tokenID]")
+				if hasRet && strings.HasPrefix(cond, "!") && declared && x.Else == nil {
+					guardVar = v
+				} else {
+					return fmt.Errorf("InvalidateTokenCache: unrecognised conditional `if %s` (the model must be told when the permission cache is scanned)", cond)
+				}
+			case *ast.ReturnStmt:
+				return fmt.Errorf("InvalidateTokenCache: unexpected top-level return")
+			}
+		}
+	}
+	allData, allPerm := false, false
+	{
+		k := mkey{"RBACManager", "InvalidateAllCache"}
+		fd, f := methods[k], mfile[k]
+		for _, st := range fd.Body.List {
+			switch x := st.(type) {
+			case *ast.AssignStmt:
+				if len(x.Lhs) == 1 && len(x.Rhs) == 1 && strings.HasPrefix(f.Text(x.Rhs[0]), "make(map[") {
+					switch f.Text(x.Lhs[0]) {
+					case "rm.tokenCache":
+						allData = true
+					case "rm.permCache":
+						allPerm = true
+					}
+				}
+			case *ast.ExprStmt:
+				if c := directCall(st, "clear"); c != nil && len(c.Args) == 1 {
+					switch f.Text(c.Args[0]) {
+					case "rm.tokenCache":
+						allData = true
+					case "rm.permCache":
+						allPerm = true
+					}
+				}
+			case *ast.IfStmt, *ast.ReturnStmt, *ast.ForStmt, *ast.RangeStmt:
+				return fmt.Errorf("InvalidateAllCache: unexpected control flow (%T); the model assumes unconditional clearing", x)
+			}
+		}
+	}
+	// ---- the two non-insert success paths of ApplyCreateOrganization
+	pathInv := func(condNeedle string) (string, error) {
+		k := mkey{"RBACManager", "ApplyCreateOrganization"}
+		fd, f := methods[k], mfile[k]
+		var blk *ast.BlockStmt
+		ast.Inspect(fd.Body, func(n ast.Node) bool {
+			if is, ok := n.(*ast.IfStmt); ok && strings.Contains(f.Text(is.Cond), condNeedle) {
+				blk = is.Body
+				return false
+			}
+			return true
+		})
+		if blk == nil {
+			return "", fmt.Errorf("ApplyCreateOrganization: branch `if …%s…` not found", condNeedle)
+		}
+		kind := "none"
+		retNil := false
+		for _, st := range blk.List {
+			if directCall(st, "InvalidateAllCache") != nil {
+				kind = "all"
+			}
+			if r, ok := st.(*ast.ReturnStmt); ok && len(r.Results) == 1 && f.Text(r.Results[0]) == "nil" {
+				retNil = true
+			}
+		}
+		if !retNil {
+			return "", fmt.Errorf("ApplyCreateOrganization: branch `%s` no longer ends in `return nil`", condNeedle)
+		}
+		return kind, nil
+	}
+	replayInv, err := pathInv("existingName == entry.Name")
+	if err != nil {
+		return err
+	}
+	realignInv, err := pathInv("UNIQUE constraint failed")
+	if err != nil {
+		return err
+	}
+	{
+		k := mkey{"RBACManager", "ApplyCreateOrganization"}
+		txt := mfile[k].Text(methods[k].Body)
+		if !strings.Contains(txt, "DELETE FROM rbac_organizations WHERE name = ?") {
+			return fmt.Errorf("ApplyCreateOrganization: the re-align branch no longer deletes the local row by name (model: delete + cascade + insert)")
+		}
+	}
+	rows = append(rows, row{"cluster", "CreateOrganization:replay", replayInv, "(RBACManager).ApplyCreateOrganization [same id, same name]", false})
+	rows = append(rows, row{"cluster", "CreateOrganization:realign", realignInv, "(RBACManager).ApplyCreateOrganization [name exists under another id: delete+cascade+insert]", false})
+	// eviction / sweep shapes the model relies on
+	for _, nm := range []string{"evictPermCacheIfFull", "evictTokenCacheIfFull"} {
 		fd := methods[mkey{"RBACManager", nm}]
 		if fd == nil {
 			return fmt.Errorf("(RBACManager).%s not found", nm)
 		}
 		txt := mfile[mkey{"RBACManager", nm}].Text(fd.Body)
-		if !strings.Contains(txt, "rm.tokenCache") || !strings.Contains(txt, "rm.permCache") {
-			return fmt.Errorf("(RBACManager).%s no longer touches both tokenCache and permCache", nm)
+		if !strings.Contains(txt, ">= rm.maxCacheSize") || !strings.Contains(txt, "break") {
+			return fmt.Errorf("(RBACManager).%s: expected `if len(cache) >= rm.maxCacheSize { delete one arbitrary entry }`", nm)
 		}
 	}
+	{
+		fd := methods[mkey{"RBACManager", "cleanupExpiredCache"}]
+		if fd == nil {
+			return fmt.Errorf("(RBACManager).cleanupExpiredCache not found")
+		}
+		txt := mfile[mkey{"RBACManager", "cleanupExpiredCache"}].Text(fd.Body)
+		if !strings.Contains(txt, "now.Sub(data.loadedAt) > rm.tokenCacheTTL") || !strings.Contains(txt, "now.After(entry.expiresAt)") {
+			return fmt.Errorf("cleanupExpiredCache: sweep conditions changed (model: data age > ttl; now after expiresAt)")
+		}
+	}
+
 	// default TTL constant (30 * time.Second) in NewRBACManager
 	ttl := int64(-1)
 	if fd := methods[mkey{"", "NewRBACManager"}]; fd != nil {
@@ -383,8 +529,13 @@ func c20(repo string, out *fg.Out) error {
 	}
 	fmt.Fprintf(w, "]\n")
 	fmt.Fprintf(w, "def defaultTTLNs : Int := %s\n", fg.LeanInt(ttl))
+	fmt.Fprintf(w, "/-- InvalidateTokenCache: deletes the token's entry of the token-DATA cache -/\ndef tokenInvDropsData : Bool := %v\n", tokDrops)
+	fmt.Fprintf(w, "/-- InvalidateTokenCache: when is the permission-RESULT cache scanned for the token's entries:\n    \"always\" | \"if-data-cached\" (early return when the token had no data-cache entry) | \"never\" -/\ndef tokenInvPermScan : String := %s\n", fg.LeanStr(permScan))
+	fmt.Fprintf(w, "/-- InvalidateAllCache: replaces the token-data cache / the permission-result cache unconditionally -/\ndef allInvClearsData : Bool := %v\ndef allInvClearsPerm : Bool := %v\n", allData, allPerm)
 	fmt.Fprintf(w, "end Arc.Generated.C20\n")
 	out.JSON["invalidation"] = rows
 	out.JSON["default_ttl_ns"] = ttl
+	out.JSON["token_inv"] = map[string]any{"drops_data": tokDrops, "perm_scan": permScan}
+	out.JSON["all_inv"] = map[string]any{"clears_data": allData, "clears_perm": allPerm}
 	return nil
 }
